@@ -578,6 +578,7 @@ func (gen *Generator) GenerateInclude(args []Sexp) error {
 	var exps []Sexp
 
 	var sourceItem func(item Sexp) error
+	nfiles := 0
 
 	sourceItem = func(item Sexp) error {
 		switch t := item.(type) {
@@ -605,6 +606,12 @@ func (gen *Generator) GenerateInclude(args []Sexp) error {
 				return err
 			}
 
+			// the include form yields the value of the last file
+			// only: discard the value of the file before this one.
+			if nfiles > 0 {
+				gen.AddInstruction(PopInstr(0))
+			}
+			nfiles++
 			err = gen.GenerateBegin(exps)
 			if err != nil {
 				return err
@@ -622,6 +629,10 @@ func (gen *Generator) GenerateInclude(args []Sexp) error {
 		if err != nil {
 			return err
 		}
+	}
+	if nfiles == 0 {
+		// (include []) names no file: the form still yields a value.
+		gen.AddInstruction(PushInstr{SexpNull})
 	}
 
 	return nil
@@ -1600,8 +1611,10 @@ func (gen *Generator) GeneratePackage(expressions []Sexp) error {
 		}
 	}
 
-	gen.Tail = oldtail
+	// the last expression is not in tail position either: the stack
+	// mark is cleared and the package value is built after it.
 	err := gen.Generate(expressions[size-1])
+	gen.Tail = oldtail
 	if err != nil {
 		return err
 	}
@@ -1654,6 +1667,11 @@ func (gen *Generator) GenerateReturn(xs []Sexp) error {
 
 	if n > 1 {
 		gen.AddInstruction(PushInstr{SexpMarker})
+		// the values are collected into a vector afterwards, so
+		// none of them is in tail position.
+		oldtail := gen.Tail
+		gen.Tail = false
+		defer func() { gen.Tail = oldtail }()
 	}
 	for i := range xs {
 		Q("return calling Generate on xs[i=%v]=%v", i, xs[i].SexpString(nil))
